@@ -336,6 +336,19 @@ func (g *schemaGenerator) generateDeclaredType(t *schemas.Type, scope nameScope)
 		}
 
 		if t.IsSubSchemaTypeElem() || len(validators) > 0 {
+			if !g.config.OnlyModels {
+				for _, f := range tt.Fields {
+					// The unmarshaler collects the remaining keys whatever the value type is.
+					if f.Name == additionalProperties {
+						g.output.file.Package.AddImport("reflect", "")
+						g.output.file.Package.AddImport("strings", "")
+						g.output.file.Package.AddImport("github.com/go-viper/mapstructure/v2", "")
+
+						break
+					}
+				}
+			}
+
 			g.generateUnmarshaler(decl, validators)
 		}
 
